@@ -3945,11 +3945,13 @@ def add_measures(part):
     beat_map = part.beat_map
     inv_beat_map = part.inv_beat_map
     mcounter = 1
+    pos = start
 
     for ts_start, ts_end, measure_dur in zip(
         ts_start_times, ts_end_times, beats_per_measure
     ):
-        pos = ts_start
+        # an existing measure may run across the signature change: continue after it
+        pos = max(pos, ts_start)
 
         while pos < ts_end:
             measure_start = pos
